@@ -1,6 +1,10 @@
 package goja
 
-import "github.com/dop251/goja/unistring"
+import (
+	"reflect"
+
+	"github.com/dop251/goja/unistring"
+)
 
 type argumentsObject struct {
 	baseObject
@@ -151,6 +155,10 @@ func (a *argumentsObject) defineOwnPropertyStr(name unistring.String, descr Prop
 	}
 
 	return a.baseObject.defineOwnPropertyStr(name, descr, throw)
+}
+
+func (a *argumentsObject) exportType() reflect.Type {
+	return reflectTypeArray
 }
 
 func (a *argumentsObject) export(ctx *objectExportCtx) interface{} {
